@@ -197,8 +197,8 @@ impl Prop for C16 {
     }
     fn budget(&self, tier: Tier) -> Budget {
         match tier {
-            Tier::Quick => Budget { cases: 60_000, max_tape: 768 },
-            Tier::Thorough => Budget { cases: 1_200_000, max_tape: 1536 },
+            Tier::Quick => Budget { cases: 1_000_000, max_tape: 768 },
+            Tier::Thorough => Budget { cases: 15_000_000, max_tape: 1536 },
         }
     }
     fn run_tape(&self, tape: &[u8], _tier: Tier, rec: &mut Recorder) -> Result<(), Failure> {
